@@ -308,6 +308,8 @@ class Interp:
                 fval = held
             args = [self.eval(a, st) for a in e.args if not isinstance(a, ast.Starred)]
             kwargs = {k.arg: self.eval(k.value, st) for k in e.keywords if k.arg}
+            if st.pending is not None:
+                return U("an operand raised")  # the call itself never happens
             # built-in record operation: x.replace(field=value)
             if isinstance(fval, R) and isinstance(e.func, ast.Attribute) and e.func.attr == "replace" and not args:
                 return fval.replace(**kwargs)
